@@ -1,3 +1,153 @@
-import DaliVerif.Spec.GearPost
+import DaliVerif.Proofs.GearSeqC08
+/-!
+# C08 — gear query/set sequences report and establish exactly the gear's state
+
+Property theorems only.  The models `queryDeviceTypes` (as repaired by the `fix:` commit),
+`queryGroups`, `setGroups` (`Model/GearSeq.lean`) are tied to `dali/sequences.py` by lock-step
+execution; `runBus` runs them against the specification bus (`Spec/GearBus.lean`, any number of
+units), `runStream` against an arbitrary answer stream; `qdtPost`, `qdtStreamPost`, `groupsPost`,
+`setGroupsPost` (`Spec/GearPost.lean`) are the property's clauses — the same functions the driver
+evaluates on the real generator's behaviour.
+-/
 namespace DaliVerif.Props.C08
+open DaliVerif GearSeq
+
+/-- a plain `int` destination behaves as the short address it denotes -/
+theorem dest_int (d : Dest) (a : Addr) (hd : d.resolve = .ok a) :
+    queryDeviceTypes d = queryDeviceTypes (.addr a) ∧ queryGroups d = queryGroups (.addr a) := by
+  constructor <;>
+    simp only [queryDeviceTypes, queryGroups, withDest_resolve d a hd, withDest_resolve (.addr a) a rfl]
+
+/-- **qdt_bus** — QueryDeviceTypes against *any* bus whose units report bytes: at most 257
+commands; the result is DALISequenceError or a strictly ascending list; nobody / several units at
+the address ⇒ DALISequenceError; one conforming unit ⇒ exactly its list. -/
+theorem qdt_bus (b : Bus) (hw : TypesWF b) (d : Dest) (a : Addr) (hd : d.resolve = .ok a) :
+    qdtPost b a (runBus (queryDeviceTypes d) b) = true := by
+  rw [(dest_int d a hd).1]; exact qdtPost_holds b hw a
+
+/-- **qdt_conforming** — for every strictly ascending list `L ⊆ 0..253` (empty, single, many,
+including type 0), on a bus of any size where the one unit addressed implements exactly `L`:
+the result is exactly `L`. -/
+theorem qdt_conforming (b : Bus) (hw : TypesWF b) (a : Addr) (u : Gear)
+    (hu : b.filter (·.addressed a) = [u]) (hasc : ascending u.types = true)
+    (hrange : ∀ t ∈ u.types, t < 254) :
+    (runBus (queryDeviceTypes (.addr a)) b).res = .ret u.types := by
+  have h := qdtPost_holds b hw a
+  have hconf : u.typesConforming = true := by
+    simp [Gear.typesConforming, hasc]; exact hrange
+  simp only [qdtPost, hu, hconf, if_true, Bool.and_eq_true, beq_iff_eq] at h
+  exact h.2
+
+/-- **qdt_silent** — nobody at the address: DALISequenceError after one command. -/
+theorem qdt_silent (b : Bus) (hw : TypesWF b) (a : Addr) (hu : b.filter (·.addressed a) = []) :
+    (runBus (queryDeviceTypes (.addr a)) b).res = .raised .DALISequenceError := by
+  have h := qdtPost_holds b hw a
+  simp only [qdtPost, hu, Bool.and_eq_true] at h
+  have := h.2
+  cases hr : (runBus (queryDeviceTypes (.addr a)) b).res with
+  | ret l => rw [hr] at this; simp [isDSE] at this
+  | outOfFuel => rw [hr] at this; simp [isDSE] at this
+  | raised e => rw [hr] at this; cases e <;> simp_all [isDSE]
+
+/-- **qdt_collision** — two or more units at the address (answers collide): DALISequenceError. -/
+theorem qdt_collision (b : Bus) (hw : TypesWF b) (a : Addr) (u1 u2 : Gear) (rest : List Gear)
+    (hu : b.filter (·.addressed a) = u1 :: u2 :: rest) :
+    (runBus (queryDeviceTypes (.addr a)) b).res = .raised .DALISequenceError := by
+  have h := qdtPost_holds b hw a
+  simp only [qdtPost, hu, Bool.and_eq_true] at h
+  have := h.2
+  cases hr : (runBus (queryDeviceTypes (.addr a)) b).res with
+  | ret l => rw [hr] at this; simp [isDSE] at this
+  | outOfFuel => rw [hr] at this; simp [isDSE] at this
+  | raised e => rw [hr] at this; cases e <;> simp_all [isDSE]
+
+/-- **qdt_adversarial** — against EVERY stream of answers (silence, framing errors, any bytes, in
+any order, for ever): the run ends within 257 commands, with DALISequenceError or with exactly the
+strictly ascending list it was given, closed by a 254 answer.  No wrong data, no unbounded run.
+(This is the theorem that has no proof for the unrepaired loop: `last_seen` was never assigned.) -/
+theorem qdt_adversarial (answers : Nat → Resp) (hbytes : ∀ i v, answers i = .byte v → v < 256)
+    (d : Dest) (a : Addr) (hd : d.resolve = .ok a) :
+    qdtStreamPost answers (runStream (queryDeviceTypes d) answers) = true := by
+  rw [(dest_int d a hd).1]; exact qdtStreamPost_holds answers hbytes a
+
+/-- the same, spelled out -/
+theorem qdt_adversarial_bounded (answers : Nat → Resp) (hbytes : ∀ i v, answers i = .byte v → v < 256)
+    (a : Addr) :
+    (runStream (queryDeviceTypes (.addr a)) answers).trace.length ≤ 257 ∧
+    ((runStream (queryDeviceTypes (.addr a)) answers).res = .raised .DALISequenceError ∨
+      ∃ l, (runStream (queryDeviceTypes (.addr a)) answers).res = .ret l ∧ ascending l = true) := by
+  have hstep : ∀ (s : Nat) (c : Cmd), (c = .queryDeviceType a ∨ c = .queryNextDeviceType a) → True →
+      True ∧ ∀ v, (streamStep answers s c).1 = .byte v → v < 256 :=
+    fun s c _ _ => ⟨trivial, fun v hv => hbytes s v hv⟩
+  obtain ⟨g1, g2⟩ := qdt_generic (streamStep answers) (fun _ => True) a hstep 0 trivial
+  exact ⟨g2, g1⟩
+
+/-- **queryGroups_spec** — on any bus: one unit at the address ⇒ exactly its 16 membership bits
+after exactly the two queries; nobody / several ⇒ DALISequenceError; no membership changes. -/
+theorem queryGroups_spec (b : Bus) (d : Dest) (a : Addr) (hd : d.resolve = .ok a) :
+    groupsPost b a (runBus (queryGroups d) b) = true := by
+  rw [(dest_int d a hd).2]; exact groupsPost_holds b a
+
+/-- **setGroups_spec** — for every bus, every requested 16-bit set, every destination kind and
+every iteration order Python's `set` may use: short address (one unit there) ⇒ ADD exactly for
+`requested \ current`, REMOVE exactly for `current \ requested`, membership afterwards = request;
+nobody / several there ⇒ DALISequenceError and nothing changed; group / broadcast / unaddressed ⇒
+sixteen commands and every addressed unit ends with exactly the request (bitwise proof, all
+2^16 × 2^16 pairs), every other unit is untouched. -/
+theorem setGroups_spec (b : Bus) (a : Addr) (req : Nat) (hreq : req < 65536)
+    (hg : ∀ g, a = .group g → g < 16)
+    (ord : List Nat → List Nat) (hord : ∀ l, (ord l).Perm l) :
+    setGroupsPost b a req (runBus (setGroups (.addr a) (bitsOf req) ord) b) = true := by
+  cases a with
+  | short n => exact setGroups_short b n req hreq ord hord
+  | group g => exact setGroups_full b (.group g) req hreq (fun n h => by cases h) hg ord
+  | broadcast => exact setGroups_full b .broadcast req hreq (fun n h => by cases h) hg ord
+  | unaddressed => exact setGroups_full b .unaddressed req hreq (fun n h => by cases h) hg ord
+
+/-- a plain `int` destination is the short address -/
+theorem setGroups_int (i : Int) (h : 0 ≤ i ∧ i ≤ 63) (groups : List Nat) (ord : List Nat → List Nat) :
+    setGroups (.int i) groups ord = setGroups (.addr (.short i.toNat)) groups ord := by
+  simp [setGroups, Dest.isShortOrInt, queryGroups, withDest, Dest.resolve, h]
+
+/-! ## Non-vacuity and the behaviour before the repairs -/
+
+def unit3 (types : List Nat) (groups : Nat := 0) : Gear := { short := some 3, types := types, groups := groups }
+
+example : (runBus (queryDeviceTypes (.addr (.short 3))) [unit3 [0, 6], unit3 [1] |>.tick]).res
+    = .raised .DALISequenceError := by decide
+example : (runBus (queryDeviceTypes (.int 3)) [{ short := some 4 }, unit3 [0, 6]]).res = .ret [0, 6] := by decide
+example : (runBus (queryDeviceTypes (.int 3)) [unit3 []]).res = .ret [] := by decide
+example : (runBus (queryDeviceTypes (.int 3)) [unit3 [6, 6]]).res = .raised .DALISequenceError := by decide
+example : (runBus (queryGroups (.int 3)) [unit3 [] 0x8001]).res = .ret [0, 15] := by decide +kernel
+example : ((runBus (setGroups (.addr (.group 3)) (bitsOf 0x8002) id) [unit3 [] 0x8028]).st.map (·.groups))
+    = [0x8002] := by decide +kernel
+
+/-- the loop as it was before the repair: `last_seen` stays 0 -/
+def qdtLoopOld (a : Addr) : Nat → List Nat → Prog (List Nat)
+  | 0, _ => .spin
+  | fuel + 1, result =>
+    .send (.queryNextDeviceType a) fun r =>
+      match r with
+      | .none => .fail .DALISequenceError
+      | .err => .done result     -- stands for: the error frame's payload was used as data
+      | .byte v =>
+        if v = 254 then (if result.isEmpty then .fail .DALISequenceError else .done result)
+        else if v ≤ 0 then .fail .DALISequenceError
+        else qdtLoopOld a fuel (result ++ [v])
+
+/-- before the repair: `[0, 6]` raised, `[6, 6]` and `[8, 6]` were returned, and a unit repeating
+6 was followed for as long as the budget lasts (here 1000 commands) -/
+example : (runStream (qdtLoopOld (.short 0) 10 []) (fun i => [Resp.byte 0, .byte 6, .byte 254].getD i .none)).res
+    = .raised .DALISequenceError := by decide
+example : (runStream (qdtLoopOld (.short 0) 10 []) (fun i => [Resp.byte 6, .byte 6, .byte 254].getD i .none)).res
+    = .ret [6, 6] := by decide
+example : (runStream (qdtLoopOld (.short 0) 10 []) (fun i => [Resp.byte 8, .byte 6, .byte 254].getD i .none)).res
+    = .ret [8, 6] := by decide
+example : (runStream (qdtLoopOld (.short 0) 1000 []) (fun _ => .byte 6)).res = .outOfFuel := by decide +kernel
+
+/-- before the second repair the full rewrite visited the groups in index order: a unit in
+groups {3, 5, 15} asked via group 3 to be in {1, 15} kept group 5 -/
+example : ((runBus (groupProg (.group 3) ((List.range 16).map (fun i => ((bitsOf 0x8002).contains i, i)))
+    (.done ())) [unit3 [] 0x8028]).st.map (·.groups)) = [0x8022] := by decide +kernel
+
 end DaliVerif.Props.C08
